@@ -241,6 +241,64 @@ def run_worker_env(cases: List[dict], extra_env: dict) -> List[dict]:
     return json.loads(p.stdout)
 
 
+def run_client_worker(cases: List[dict]) -> List[Optional[dict]]:
+    """one fresh interpreter per case (the id -> class registry of pyrtma is process-wide), in parallel"""
+    from concurrent.futures import ThreadPoolExecutor
+
+    def one(c):
+        try:
+            p = subprocess.run([PY, str(VERIF / "vlib" / "defs_client_worker.py")], input=json.dumps([c]),
+                               capture_output=True, text=True, env=impl_env(), timeout=600, cwd="/")
+            if p.returncode != 0:
+                return dict(ok=False, err=p.stderr[-600:], frames=[])
+            return json.loads(p.stdout)[0]
+        except Exception as e:  # noqa
+            return dict(ok=False, err=f"{type(e).__name__}: {e}", frames=[])
+    with ThreadPoolExecutor(8) as ex:
+        return list(ex.map(one, cases))
+
+
+def gen_revision_cases(rng: random.Random, thorough: bool):
+    """pairs of definition files that give ONE id to two different texts"""
+    cases, metas = [], []
+    nid = 6000
+    kinds = ["field-rename", "type-change-same-size", "type-change-other-size", "reorder", "insertion", "message-rename"]
+    for rep in range(2 if thorough else 1):
+        for edit in kinds:
+            nid += 10
+            nm = ident(rng, 4, 10, upper=True)
+            f1, f2, f3 = ident(rng, 2, 8), ident(rng, 2, 8) + "_b", ident(rng, 2, 8) + "_c"
+            base = dict(kind="message", name=nm, id=nid, fields=[(f1, "int32"), (f2, "int32"), (f3, "double")], reuse=None)
+            other = dict(base)
+            fs = list(base["fields"])
+            if edit == "field-rename":
+                fs[1] = (f2 + "x", "int32")
+            elif edit == "type-change-same-size":
+                fs[1] = (f2, rng.choice(["uint32", "float", "unsigned int"]))
+            elif edit == "type-change-other-size":
+                fs[1] = (f2, rng.choice(["int16", "char[4]", "int8"]))
+                fs[0] = (f1, "double")
+            elif edit == "reorder":
+                fs[0], fs[1] = fs[1], fs[0]
+            elif edit == "insertion":
+                fs.append(("extra", "double"))
+            else:
+                other["name"] = nm + "_V2"
+            other["fields"] = fs
+            # a signal that keeps its text, and one that is renamed under the same id
+            same = dict(kind="signal", name="SAME_" + nm, id=nid + 1, fields=None, reuse=None)
+            sig_a = dict(kind="signal", name="SIG_" + nm, id=nid + 2, fields=None, reuse=None)
+            sig_b = dict(kind="signal", name="SIG_" + nm + "_RENAMED", id=nid + 2, fields=None, reuse=None)
+            revs = []
+            for msg, sig in ((base, sig_a), (other, sig_b)):
+                revs.append(dict(files={"root.yaml": yaml_file(msgs=[msg, same, sig])}, root="root.yaml",
+                                 messages=[msg["name"]], signals=[same["name"], sig["name"]]))
+            for order in ([0, 1], [1, 0]):
+                cases.append(dict(revs=revs, order=order))
+                metas.append(dict(edit=edit, signal_differs=True, defs=[[base, same, sig_a], [other, same, sig_b]]))
+    return cases, metas
+
+
 def check_client_source() -> List[str]:
     """fail-closed reading of client.py: which send paths assign header.version"""
     tree = ast.parse((SRC / "pyrtma" / "client.py").read_text())
@@ -516,17 +574,13 @@ def run(chk: Check):
     ccase = dict(files={"root.yaml": yaml_file(consts=consts, aliases=aliases, structs=structs, msgs=cm + cs)},
                  root="root.yaml", messages=[m["name"] for m in cm], signals=[s["name"] for s in cs],
                  undefined_ids=[5999, 9876])
-    p = subprocess.run([PY, str(VERIF / "vlib" / "defs_client_worker.py")], input=json.dumps([ccase]), capture_output=True,
-                       text=True, env=impl_env(), timeout=600, cwd="/")
     frames = []
-    if p.returncode != 0:
-        chk.broken_obligation("client worker failed", p.stderr[-600:])
+    r = run_client_worker([ccase])[0]
+    if r is None or not r["ok"]:
+        chk.broken_obligation("client worker failed", (r or {}).get("err", "no result")[-600:])
     else:
-        r = json.loads(p.stdout)[0]
-        if not r["ok"]:
-            chk.broken_obligation("client worker failed", r["err"][-600:])
         frames = r["frames"]
-    for f in frames:
+    for f in list(frames):
         want = int(f["parser_hash"][:8], 16)
         if f["path"] == "send_signal:undefined-type":
             dist["frame:" + f["path"]] = dist.get("frame:" + f["path"], 0) + 1
@@ -546,6 +600,44 @@ def run(chk: Check):
             chk.spec_failure("forward_message-rewrites-version", f"{f['name']}: {f['version']:#x}", f)
         if f["path"] == "forward_message:fresh-header" and f["version"] not in (0, want):
             chk.spec_failure("forward_message-writes-wrong-version", f"{f['name']}: {f['version']:#x}", f)
+
+    # (6) two revisions of a definition under ONE id, both imported into one sending process: every frame must carry
+    #     the hash of the definition of the object that was sent, whichever revision was imported last
+    rev_cases, rev_meta = gen_revision_cases(rng, thorough)
+    rev_yaml = [r["files"]["root.yaml"] for c in rev_cases for r in c["revs"]]
+    for (res, defs) in zip(run_impl([dict(files={"root.yaml": y}, root="root.yaml", import_coredefs=False, auto_pad=True,
+                                          validate_alignment=True) for y in rev_yaml],),
+                           [d for m in rev_meta for d in m["defs"]]):
+        if must_ok(res, "revision pair"):
+            note_defs(res, defs)                      # their text / digest also go through the model below
+    rframes = run_client_worker(rev_cases)
+    for c, m, r in zip(rev_cases, rev_meta, rframes):
+        if r is None or not r["ok"]:
+            chk.broken_obligation("client worker failed on a revision pair", (r or {}).get("err", "no result")[-600:])
+            continue
+        for f in r["frames"]:
+            want = int(f["parser_hash"][:8], 16)
+            frames.append(f)
+            tag = f"frame:two-revisions:{f['path']}"
+            dist[tag] = dist.get(tag, 0) + 1
+            dist["revision-edit:" + m["edit"]] = dist.get("revision-edit:" + m["edit"], 0) + 1
+            nontrivial.add(("revframe", m["edit"], tuple(c["order"]), f["path"], f["rev"], f["name"]))
+            rep = dict(revisions=[x["files"]["root.yaml"] for x in c["revs"]], import_order=c["order"], edit=m["edit"],
+                       frame=f, case=c)
+            if f["type_hash"] != want:
+                chk.spec_failure("type_hash-differs-from-parser-hash", f"{f['name']}: class {f['type_hash']:#x} vs parser {want:#x}", rep)
+            if f["version"] == want:
+                continue
+            last = c["order"][-1]
+            desc = (f"{m['edit']}: {f['path']} of {f['name']} (revision {f['rev']}, import order {c['order']}) carries "
+                    f"header.version {f['version']:#010x}; the definition of what was sent hashes to {want:#010x}")
+            if f["path"] == "send_message":
+                chk.spec_failure("stamp:not-the-sent-objects-hash", desc, rep)
+            elif f["rev"] != last and m["signal_differs"]:
+                # send_signal takes a bare id: with two different definitions registered under it the last import wins
+                chk.spec_failure("stamp:send_signal-id-defined-twice-last-import-wins", desc, rep)
+            else:
+                chk.spec_failure("stamp:send_signal-wrong-hash", desc, rep)
 
     # model side: every definition seen above through Model/HashText.v + Lib/Sha256.v
     coq_cases = []
@@ -592,6 +684,18 @@ def run(chk: Check):
 def replay(path: str) -> int:
     d = json.load(open(path))
     r = d["replay"]
+    if isinstance(r, dict) and "case" in r and "revs" in r["case"]:
+        out = run_client_worker([r["case"]])[0]
+        print("import order:", r["case"]["order"])
+        for j, y in enumerate(r["revisions"]):
+            print(f"--- revision {j} ---\n{y}")
+        for f in out["frames"]:
+            want = int(f["parser_hash"][:8], 16)
+            print(f"{f['path']:13s} rev {f['rev']} {f['name']:28s} header.version={f['version']:#010x}  "
+                  f"hash of the sent definition={want:#010x}  {'ok' if f['version'] == want else 'MISMATCH'}")
+        if not out["ok"]:
+            print(out["err"])
+        return 0
     consts, aliases, structs = gen_library(random.Random(0))
     defs = [r[k] for k in ("base", "edited", "defn") if k in r and isinstance(r[k], dict) and "kind" in r[k]]
     if defs:
